@@ -418,6 +418,14 @@ func (rw *rewriter) yields(f *ast.File, index bool) bool {
 						if hasRecv(h) || rw.hasRepoIfaceCall(h) || rw.hasLockCall(h) {
 							before = true
 						}
+						if hasRecv(h) {
+							// ... and after a receive: what was received may be shared with its
+							// sender, who runs on (only for plain statements, not for loop / if headers)
+							switch inner.(type) {
+							case *ast.ExprStmt, *ast.AssignStmt, *ast.DeclStmt:
+								after = true
+							}
+						}
 					}
 				}
 			}
@@ -446,6 +454,15 @@ func (rw *rewriter) yields(f *ast.File, index bool) bool {
 			b.Body = doList(b.Body)
 		case *ast.CommClause:
 			b.Body = doList(b.Body)
+			if !index && b.Comm != nil && len(b.Body) > 0 {
+				if _, isSend := b.Comm.(*ast.SendStmt); !isSend {
+					// a select arm that received something: a yield point before it is used
+					b.Body = append([]ast.Stmt{yieldStmt(nextSite())}, b.Body...)
+					changed = true
+					rw.needSimrt = true
+					rw.stats["R2/R3 yield points"]++
+				}
+			}
 		case *ast.GoStmt:
 			if !index {
 				if fl, ok := b.Call.Fun.(*ast.FuncLit); ok {
